@@ -22,7 +22,7 @@ import (
 func init() {
 	reg.Register(&reg.Spec{ID: "C29",
 		Imports: "From verif Require Import lib.Base model.C24_F64 model.C24_StoreSpec model.C29.",
-		Judge:   "C29.judge", Shard: 32, Run: run})
+		Judge:   "C29.judge", Shard: 20, Run: run})
 }
 
 type desc struct {
